@@ -371,7 +371,9 @@ class ODF2XHTML(handler.ContentHandler):
         (NUMBERNS, "currency-style"):(self.s_ignorexml, None),
         (NUMBERNS, "date-style"):(self.s_ignorexml, None),
         (NUMBERNS, "number-style"):(self.s_ignorexml, None),
+        (NUMBERNS, "percentage-style"):(self.s_ignorexml, None),
         (NUMBERNS, "text-style"):(self.s_ignorexml, None),
+        (NUMBERNS, "time-style"):(self.s_ignorexml, None),
         (OFFICENS, "annotation"):(self.s_ignorexml, None),
         (OFFICENS, "automatic-styles"):(self.s_office_automatic_styles, None),
         (OFFICENS, "document"):(self.s_office_document_content, self.e_office_document_content),
@@ -1558,7 +1560,9 @@ class ODF2XHTMLembedded(ODF2XHTML):
         (NUMBERNS, "currency-style"):(self.s_ignorexml, None),
         (NUMBERNS, "date-style"):(self.s_ignorexml, None),
         (NUMBERNS, "number-style"):(self.s_ignorexml, None),
+        (NUMBERNS, "percentage-style"):(self.s_ignorexml, None),
         (NUMBERNS, "text-style"):(self.s_ignorexml, None),
+        (NUMBERNS, "time-style"):(self.s_ignorexml, None),
 #        (OFFICENS, "automatic-styles"):(self.s_office_automatic_styles, None),
 #        (OFFICENS, "document-content"):(self.s_office_document_content, self.e_office_document_content),
         (OFFICENS, "forms"):(self.s_ignorexml, None),
